@@ -25,6 +25,7 @@ class Tree:
         self.pkg_depth = {root: 0}
         self.files = {}  # relpath -> content
         self.pyfiles = []  # relpaths of python files
+        self.short_pkg = None  # a package whose files import each other by its short name (src layout)
 
     def children(self, d):
         pre = d + "/"
@@ -102,6 +103,19 @@ def gen_tree(rng, tname, exotic=0.0, pkg_bias=0.0):
                 tree.files[f"{d}/__pycache__/leftover.py"] = "import os\n"
         elif r < 0.38:
             tree.dirs.append(f"{d}/emptydir")
+    if rng.random() < 0.2:
+        # names that differ only in case (legal on a case-sensitive file system)
+        plain = [f for f in tree.pyfiles if not f.endswith("__init__.py") and "__pycache__" not in f]
+        rng.shuffle(plain)
+        for f in plain[: rng.randint(1, 3)]:
+            d, base = f.rsplit("/", 1)
+            twin = f"{d}/{base[0].upper()}{base[1:]}"
+            if twin not in tree.files and twin[:-3] not in tree.dirs:
+                tree.files[twin] = ""
+                tree.pyfiles.append(twin)
+    sub = sorted(d for d in tree.pkg_depth if d != tree.root)
+    if sub and rng.random() < 0.35:
+        tree.short_pkg = pick(rng, sub)
     tree.pyfiles.sort()
     _gen_imports(rng, tree, pkg_bias)
     return tree
@@ -116,6 +130,7 @@ def variant_tree(rng, tree, tname):
     t.pkg_depth = dict(tree.pkg_depth)
     t.files = dict(tree.files)
     t.pyfiles = list(tree.pyfiles)
+    t.short_pkg = tree.short_pkg
     plain = [f for f in t.pyfiles if not f.endswith("__init__.py") and "__pycache__" not in f]
     rng.shuffle(plain)
     for f in plain[: rng.randint(1, max(1, len(plain) // 3))]:
@@ -220,6 +235,16 @@ def _gen_imports(rng, tree, pkg_bias=0.0):
             else:
                 other = pick(rng, cands)
                 stmt = f"import {tgt}, {other}"
+            sp = tree.short_pkg
+            if sp and f.startswith(sp + "/") and rng.random() < 0.6:
+                # src layout: below the package that is handed to the scan as module_path,
+                # files name their own package by its short name
+                strip = tree.dotted(sp.rsplit("/", 1)[0]) + "."
+                short = tree.dotted(sp).rsplit(".", 1)[-1]
+                if stmt.startswith(("import " + strip, "from " + strip)) and tgt.startswith(tree.dotted(sp)):
+                    stmt = stmt.replace(" " + strip, " ")
+                elif rng.random() < 0.25:
+                    stmt = f"import {short}.{pick(rng, ['_version', 'generated', 'nosuchmod'])}"
             lines.append(_wrap(rng, stmt))
         if rng.random() < 0.3:
             lines.append("VALUE = 1")
@@ -247,6 +272,8 @@ def gen_cfg(rng, tree, plain=False):
     module = tree.root
     if sub and rng.random() < 0.3 and not plain:
         module = pick(rng, sorted(sub))
+        if tree.short_pkg and rng.random() < 0.6:
+            module = tree.short_pkg
     kw = {}
     patterns = []
     names_in_tree = sorted({p for d in tree.dirs for p in d.split("/")[1:]} |
@@ -354,7 +381,7 @@ def gen_arch(rng, modules, all_named, universe=(), p_regex=0.35):
             break
     nlayers = rng.randint(2, 4)
     layers = []
-    names = ["LA", "LB", "LC", "LD"]
+    names = ["LA", "LB", "LC", "LD"] if rng.random() < 0.8 else ["LA", "La", "LB", "Lb"]
     i = 0
     for li in range(nlayers):
         if i >= len(chosen):
